@@ -335,6 +335,12 @@ contract(
     canaries={"always-classdefs": f"'{G}' in result.todo"},
     ghost_vars={"TS": (Ref(c17.TAGSET), "self.context.todo"), "S0": (Set(STR), "self.features")},
     ghost={"ctx = super().setContext(font, feaFile, compiler=compiler)": ["TS = ctx.todo", "S0 = ctx.todo.todo"]},
+    # after the two discards of an iteration (before the `break` test): the two invariants with statement i taken into account, for the leaving path as well
+    hints={"ctx.openTypeCategories = self.getOpenTypeCategories()": [f"implies(any(ctx.openTypeCategories), {_HAS_DATA})"],
+           "if isinstance(fea, ast.GlyphClassDefStatement):": [
+        f"iff('{G}' in TS, '{G}' in S0 and not any(B[a].kind == 'GlyphClassDefStatement' for a in range(i)) and B[i].kind != 'GlyphClassDefStatement')",
+        f"iff('{L}' in TS, '{L}' in S0 and not any(B[a].kind in {_CARET_KINDS!r} for a in range(i)) and B[i].kind not in {_CARET_KINDS!r})",
+    ]},
     loops={
         "for fea in ctx.gdefTableBlock.statements": Loop(
             index="i",
@@ -391,6 +397,12 @@ contract(
         "new-gdef-appended": "implies(not self.context.gdefTableBlock, self.context.feaFile.stmt_ids[:len(self.context.feaFile.stmt_ids) - 1] == old(self.context.feaFile.stmt_ids)"
         f" and {_BLK}.kind == 'TableBlock' and {_BLK}.name == 'GDEF' and len({_BLK}.statements) == 1)",
     },
+    # (the membership facts restated for the statement node while it still has a name: the postconditions then only need "the last statement is that node")
+    hints={"gdefTableBlock.statements.append(glyphClassDefs)": [
+        f"all(n in {_OGSW} and n in {_C}.{cat} for n in glyphClassDefs.{cat}Glyphs.glyphs)" for cat in _CATS
+    ] + [
+        f"all(implies(list({_OGSW})[a] in {_C}.{cat}, list({_OGSW})[a] in glyphClassDefs.{cat}Glyphs.glyphs) for a in range(len(list({_OGSW}))))" for cat in _CATS
+    ] + [f"{_LAST} == glyphClassDefs"]},
     canaries={"mark-is-second-wrong": f"all(implies(list({_OGSW})[a] in {_C}.ligature, list({_OGSW})[a] in {_LAST}.markGlyphs.glyphs) for a in range(len(list({_OGSW}))))"},
 )
 contract(
